@@ -96,7 +96,7 @@ Lemma draw_to_term_nonempty ls n al below W H : fst (fst (draw_to_term ls n al b
 Proof.
   unfold draw_to_term.
   match goal with |- context [if ?c then ?a else ?b] =>
-    match type of a with (list termop * N * N)%type => destruct (if c then a else b) as [[pops real] shift] end end.
+    match type of a with (list termop * N * N * bool)%type => destruct (if c then a else b) as [[[pops real] shift] any] end end.
   cbn [fst]. intros Hn. apply app_eq_nil in Hn. destruct Hn as [_ Hn].
   unfold clear_ops in Hn. discriminate.
 Qed.
@@ -187,10 +187,8 @@ Section Inv.
           assert (N.to_nat n' <= Hn)%nat by (unfold Hn; lia). lia.
         * exact Hbel'.
         * exact Hc'.
-    - pose proof (draw_to_term_top_eq (texts ++ bars) (tt_n tg) (tt_below tg) W H) as Heq.
-      rewrite Ed in Heq. injection Heq as Hops _ _. rewrite Hops.
-      intros Hemp. apply app_eq_nil in Hemp. destruct Hemp as [_ Hemp].
-      unfold clear_ops in Hemp. discriminate.
+    - pose proof (draw_to_term_nonempty (texts ++ bars) (tt_n tg) Top (tt_below tg) W H) as Hne.
+      rewrite Ed in Hne. exact Hne.
   Qed.
 End Inv.
 
@@ -313,21 +311,26 @@ Local Open Scope N_scope.
 
 (** the calls of a draw of the EMPTY line list (Drawable::clear) under Top alignment and the
     column they leave: column 0 if rows were erased, unchanged otherwise *)
-Lemma clear_draw_col W H tg t c : tt_align tg = Top ->
+Lemma clear_draw_col W H tg t c : tt_align tg = Top -> (tt_n tg <> 0 -> 1 <= H) ->
   t_col (run_ops (N.to_nat W) (N.to_nat H) t (snd (fst (fst (term_draw W H nofail tg [] c)))))
   = if tt_n tg =? 0 then t_col t else 0%nat.
 Proof.
-  intros Hal. unfold term_draw. rewrite Hal, draw_to_term_top_eq, emit_nofail. cbn [fst snd paint app].
-  set (e := (if tt_below tg && (0 <? tt_n tg) then [TUp 1] else []) ++ clear_ops (tt_n tg) ++ [TFlush]).
+  intros Hal HH. unfold term_draw. rewrite Hal, draw_to_term_top_eq_min, emit_nofail. cbn [fst snd paint app].
+  set (m := N.min (tt_n tg) H).
+  assert (Hm : (m =? 0) = (tt_n tg =? 0)).
+  { unfold m. destruct (N.eqb_spec (tt_n tg) 0) as [->|Hn]; [apply N.eqb_eq; lia|].
+    specialize (HH Hn). apply N.eqb_neq. lia. }
+  set (e := (if tt_below tg && (0 <? m) then [TUp 1] else []) ++ clear_ops m ++ [TFlush]).
   pose proof (col_after (N.to_nat W) (N.to_nat H) e None (t_col t) t eq_refl) as Hc.
-  assert (Hl : last_write e None = if tt_n tg =? 0 then None else Some TClear).
+  assert (Hl : last_write e None = if m =? 0 then None else Some TClear).
   { unfold e, clear_ops. rewrite last_write_app.
-    assert (E0 : last_write (if tt_below tg && (0 <? tt_n tg) then [TUp 1] else []) None = None)
-      by (destruct (tt_below tg && (0 <? tt_n tg)); reflexivity).
+    assert (E0 : last_write (if tt_below tg && (0 <? m) then [TUp 1] else []) None = None)
+      by (destruct (tt_below tg && (0 <? m)); reflexivity).
     rewrite E0. cbn [app last_write is_write]. rewrite !last_write_app, last_write_clear_loop.
-    cbn [last_write is_write]. destruct (N.eqb_spec (tt_n tg) 0) as [->|Hn]; [reflexivity|].
-    destruct (N.to_nat (tt_n tg)) eqn:E; [lia | reflexivity]. }
-  rewrite Hl in Hc. destruct (tt_n tg =? 0); exact Hc.
+    cbn [last_write is_write]. destruct (N.to_nat m) eqn:E.
+    - replace (m =? 0) with true by (symmetry; apply N.eqb_eq; lia). reflexivity.
+    - replace (m =? 0) with false by (symmetry; apply N.eqb_neq; lia). reflexivity. }
+  rewrite Hl, Hm in Hc. destruct (tt_n tg =? 0); exact Hc.
 Qed.
 
 (** The per-op case analysis, done once, generically in the invariant [I] that relates the target
@@ -353,6 +356,7 @@ Section GenInv.
   Hypothesis I_write : forall tg t log w,
     I tg t log [] -> (w <> [] \/ t_col t = 0%nat) -> I tg (exec Wn Hn t (TLine w)) (log ++ [w]) [].
   Hypothesis I_top : forall tg t log frame, I tg t log frame -> tt_align tg = Top.
+  Hypothesis I_pos : forall tg t log frame, I tg t log frame -> tt_n tg <> 0 -> 1 <= H.
 
   Definition SInv (st : sys * ghost * term) : Prop :=
     exists b tg, SB (fst (fst st)) b tg
@@ -448,7 +452,7 @@ Section GenInv.
     (snd (fst (step W H nofail s now o)) <> [] ->
      ok (op_texts o) (frame_of (get_bar (fst (fst (step W H nofail s now o))) 0))) ->
     SInv (sb_step W H (s, g, t) (now, o)).
-  Proof using ok_nil I_same I_draw I_write I_top.
+  Proof using ok_nil I_same I_draw I_write I_top I_pos.
     intros (b & tg & Hsb & Hinv) Hedge Hop Hsus Hfit. cbn [fst snd] in Hsb, Hinv.
     unfold sb_step. cbn [fst snd].
     destruct o; cbn [c01_op] in Hop; try discriminate;
@@ -525,7 +529,7 @@ Section GenInv.
                     Hinv (Forall_nil _) (Forall_nil _) ok_nil) as Hd.
       cbn [app map] in Hd. rewrite app_nil_r in Hd.
       pose proof (term_draw_nonempty W H tg [] (s_calls s)) as Hne.
-      pose proof (clear_draw_col W H tg t (s_calls s) (I_top _ _ _ _ Hinv)) as Hcol.
+      pose proof (clear_draw_col W H tg t (s_calls s) (I_top _ _ _ _ Hinv) (I_pos _ _ _ _ Hinv)) as Hcol.
       assert (Hbn : bar_n s = tt_n tg) by (unfold bar_n; rewrite Hget, Ht; reflexivity).
       rewrite Hbn in Hsus.
       destruct (term_draw W H nofail tg [] (s_calls s)) as [[[tg1 e1] c1] ok1].
@@ -625,7 +629,7 @@ Section GenInv.
   Lemma run_gen : forall h s g t,
     SInv (s, g, t) -> (g_edge g = false -> t_col t = 0%nat) ->
     hist_ok W H s g h -> ok_hist s h -> SInv (sb_run W H (s, g, t) h).
-  Proof using ok_nil I_same I_draw I_write I_top.
+  Proof using ok_nil I_same I_draw I_write I_top I_pos.
     induction h as [|[now o] h IH]; intros s g t Hinv Hedge Hok Hfit; [exact Hinv|].
     unfold sb_run. cbn [fold_left]. fold (sb_run W H).
     unfold hist_ok in Hok. cbn [hist_okb fst snd] in Hok.
@@ -711,6 +715,7 @@ Section C01.
     - intros tg1 t1 l1 f1 tx bs c1 Hi1 Htx Hbs Hk. exact (TInv_draw tg1 t1 l1 f1 tx bs c1 Hi1 Htx Hbs Hk).
     - intros tg1 t1 l1 w1 Hi1 Hw1. exact (TInv_write tg1 t1 l1 w1 Hi1 Hw1).
     - intros tg1 t1 l1 f1 Hi1. exact (proj1 Hi1).
+    - intros tg1 t1 l1 f1 _ _. exact HH.
     - exists b, tg. cbn [fst snd ghost_for g_log g_frame map]. split; [split; assumption|].
       split; [exact Hal|]. exists [], []. rewrite !app_nil_r. rewrite Hn0. cbn.
       repeat split; try assumption; try reflexivity; lia.
@@ -819,7 +824,7 @@ Lemma draw_rows_bounded W H ls n below :
            end)
   /\ (bar_rows ls W <= H -> P = ls).
 Proof.
-  cbv zeta. rewrite draw_to_term_top_eq. cbn [fst snd]. rewrite paint_real.
+  cbv zeta. rewrite draw_to_term_top_eq_min. cbn [fst snd]. rewrite paint_real.
   pose proof (painted_bar_rows_le W H ls 0 ltac:(lia)) as Hle.
   destruct (painted_prefix W H ls 0) as (rest & Heq & Hrest).
   repeat split; try lia.
@@ -882,6 +887,10 @@ Section C19History.
       - exact RInv_draw.
       - intros tg1 t1 l1 w1 Hi1 _. exact Hi1.
       - intros tg1 t1 l1 f1 Hi1. exact (proj1 Hi1).
+      - intros tg1 t1 l1 f1 [_ Hn1] Hne. rewrite Hn1 in Hne.
+        pose proof (painted_bar_rows_le W H (map (mkline KBar) f1) 0) as Hle. unfold fitting_prefix in Hne.
+        destruct (N.eq_dec H 0) as [E0|E0]; [|lia]. exfalso. apply Hne.
+        specialize (Hle ltac:(lia)). lia.
       - exists b, tg. cbn [fst snd ghost_for g_log g_frame map]. split; [split; assumption|].
         split; [exact Hal|]. rewrite Hn0. reflexivity.
       - cbn [ghost_for g_edge]. intros He. destruct (Nat.eqb_spec (t_col t0) 0); [assumption | discriminate].
@@ -960,7 +969,11 @@ Section C19Erase.
     assert (HWn : (1 <= Wn)%nat) by (unfold Wn; lia).
     assert (HHn : (1 <= Hn)%nat) by (unfold Hn; lia).
     intros (Hal & L & F & HL & HF & Hlen & Hstate) Ht Hb Hok.
-    unfold term_draw. rewrite Hal. rewrite draw_to_term_top_eq. rewrite emit_nofail.
+    assert (HnH : tt_n tg <= H).
+    { destruct Hstate as [[HF0 _] | (_ & _ & k & v & _ & Hv & Hreach)].
+      - subst F. cbn [length] in Hlen. lia.
+      - unfold Hn in *. lia. }
+    unfold term_draw. rewrite Hal. rewrite (draw_to_term_top_eq _ _ _ _ _ HnH). rewrite emit_nofail.
     cbn [fst snd]. rewrite paint_real. rewrite N.add_0_l.
     rewrite !app_assoc, run_ops_flush, run_ops_app.
     (* erase phase *)
@@ -1091,6 +1104,7 @@ Section C19Screen.
     - intros tg1 t1 l1 f1 tx bs c1 Hi1 Htx Hbs Hk. exact (CInv_draw W H HW HH pre tg1 t1 l1 f1 tx bs c1 Hi1 Htx Hbs Hk).
     - intros tg1 t1 l1 w1 Hi1 Hw1. exact (CInv_write tg1 t1 l1 w1 Hi1 Hw1).
     - intros tg1 t1 l1 f1 Hi1. exact (proj1 Hi1).
+    - intros tg1 t1 l1 f1 _ _. exact HH.
     - exists b, tg. cbn [fst snd ghost_for g_log g_frame map]. split; [split; assumption|].
       split; [exact Hal|]. exists [], []. rewrite Hn0. cbn [length N.to_nat].
       split; [apply rows_equiv_refl|]. split; [apply rows_equiv_refl|]. split; [reflexivity|].
